@@ -101,6 +101,7 @@ struct Global {
     int max_threads_seen;
     bool soft; char soft_cls[160]; char soft_msg[1024];   // first soft failure of the run (run continues, reported at its end)
     bool batch_mode; u64 soft_total;
+    int heap_fill;                    // byte written into fresh heap blocks (default 0xCD); scenarios may vary it to expose reads of uninitialised memory
 };
 extern Global G;
 extern __thread SimThread *tl_self;
